@@ -458,16 +458,8 @@ Fixpoint norm (ty : goty) (v : goval) {struct v} : goval :=
   | _ => v
   end.
 
-(** no slice whose elements occupy no bytes on the wire (in exported positions) *)
-Fixpoint lin_ty (ty : goty) : bool :=
-  match ty with
-  | TSlice _ e => negb (wire0 e) && lin_ty e
-  | TArray _ e => lin_ty e
-  | TStruct fs => (fix go (fs : list (bool * goty)) : bool := match fs with [] => true | (ex, t) :: r => (negb ex || lin_ty t) && go r end) fs
-  | _ => true
-  end.
-(** the constants of the linear bound: [kK ty] the input-independent part (temporaries, fixed loop counts),
-    [kA ty] the factor per input byte *)
+(** the constants of the linear cost bound: [kK ty] the input-independent part (temporaries, fixed loop counts),
+    [kA ty] the factor per input byte / per unit of element budget *)
 Fixpoint kK (ty : goty) : N :=
   match ty with
   | TSlice _ e => kK e + 1
